@@ -439,11 +439,36 @@ def main(chk):
                               'honour the stability criteria' % (sticky[0] if sticky else '', state.get(sticky[0]) if sticky else ''),
                    detail_ok='guarded by configuration only (%s)' % sorted(reads))
     dmp = M.find_func(cls, '_damp_timestep')
-    chk.decide([compact(r.value) for r in ast.walk(dmp) if isinstance(r, ast.Return)] == ['dt*self._damping_factor'], 'next-step', 'damping', node=dmp,
-               file=SOL, func='_damp_timestep', detail_bad='damped step is not dt*_damping_factor', detail_ok='dt*self._damping_factor')
-    facs = [compact(a.value) for a in ast.walk(dmp) if isinstance(a, ast.Assign) and U(a.targets[0]) == 'self._damping_factor']
-    chk.decide('1.0' in facs and len(facs) == 2, 'next-step', 'damping-factor-one-after-n_damp', node=dmp, file=SOL, func='_damp_timestep',
-               detail_bad='damping factor assignments %s' % facs, detail_ok='fac while count < n_damp else 1.0')
+    # per feasible path (locals substituted): the value returned is dt times the factor this call stores in self._damping_factor; that factor is the ramp while
+    # count < n_damp (and n_damp > 0) and exactly 1.0 otherwise
+    from verif_static import paths as PT_
+    dpar = [a_ for a_ in M.arg_names(dmp) if a_ != 'self'][0]
+    dpaths = [p_ for p_ in PT_.enumerate_paths(M.docstring_stripped(dmp.body)) if p_[-1].kind == 'return']
+    okd, whyd, kinds = bool(dpaths), '', set()
+    for p_ in dpaths:
+        sto = [v for i, tg, v in PT_.stores_on(p_) if tg == 'self._damping_factor']
+        rv = PT_.resolve(p_[-1].node.value, p_[-1].env) if p_[-1].node.value is not None else None
+        if len(sto) != 1 or rv is None:
+            okd, whyd = False, 'a path stores the factor %d times' % len(sto)
+            break
+        fac = sto[0]
+        # the stored factor may be read back through the attribute
+        if not (N.same(rv, '%s*(%s)' % (dpar, U(fac))) or N.same(rv, '%s*self._damping_factor' % dpar)):
+            okd, whyd = False, 'a path returns %s with the factor %s stored' % (U(rv), U(fac))
+            break
+        ramp = PT_.took(p_, True, 'self.count < self.n_damp and self.n_damp > 0', 'self.n_damp > 0 and self.count < self.n_damp') is not None
+        one = isinstance(fac, ast.Constant) and fac.value == 1
+        kinds.add('ramp' if ramp else 'one')
+        if ramp == one:
+            okd, whyd = False, 'the factor is %s on a path where `count < n_damp and n_damp > 0` is %s' % (U(fac), ramp)
+            break
+        if ramp and not N.same(fac, '0.5*(numpy.sin(numpy.pi*(-0.5 + (self.count+1)/float(self.n_damp))) + 1.0)', '0.5*(numpy.sin(numpy.pi*(-0.5 + (self.count+1)/self.n_damp)) + 1.0)'):
+            okd, whyd = False, 'the ramp is %s' % U(fac)
+            break
+    okd = okd and kinds == set(['ramp', 'one'])
+    chk.decide(okd, 'next-step', 'damping', node=dmp,
+               file=SOL, func='_damp_timestep', detail_bad='damped step is not dt * (the factor stored in _damping_factor: the sine ramp while count < n_damp, 1.0 afterwards): %s' % whyd,
+               detail_ok='dt*factor; ramp while count < n_damp else 1.0 (%d paths)' % len(dpaths))
     # epsilon bookkeeping
     eps = [compact(a.value) for a in ast.walk(solve) if isinstance(a, ast.Assign) and U(a.targets[0]) == 'self._epsilon']
     chk.decide(eps == ['EPSILON*self.tf', 'EPSILON*self.tf*self.count'], 'loop-guard', 'epsilon', node=solve, file=SOL, func='Solver.solve',
